@@ -2,3 +2,4 @@ pub mod civil;
 pub mod round;
 pub mod dur;
 pub mod date;
+pub mod grammar;
